@@ -13,7 +13,10 @@ SPEC = {
                    "storage.FSBucket in a temp dir. Start dates: Jan-Mar 2024 month ends and leap day (60%), 25-31 December of "
                    "2023/2024/1999/2099/2100/2020 so that ranges cross New Year (30%), 1 January (10%); 3% of chart ranges and 8% "
                    "of copy ranges span 300-800 days. 20-30% of merge/chart/copy cases and half the seq cases put unlistable "
-                   "stray directories (names that are not valid UTF-8, sorting before and after the dates) into the bucket. What "
+                   "stray directories (names that are not valid UTF-8, sorting before and after the dates) into the bucket. Bucket layout: each bucket directory (upload, merged, "
+                   "chart, the copy source) is in 22% of the environments a symbolic link (absolute or relative target) to a real "
+                   "directory elsewhere, the local storage directory itself in 10%; in 30% of the later seq rounds a bucket "
+                   "directory is moved away and replaced by a link to it between two requests. What "
                    "is stored for a day is the harness's own record of what it wrote; the real listing only orders it. Per 20 slots: 5 merge cases (one day of 0-40 uploads, shuffled creation "
                    "order, pretty-printed / padded / trailing-garbage objects, 8% with one undecodable object, 6% of reports "
                    "64KiB..98KiB i.e. one merged line over bufio's 64KiB token, duplicate X incl. 0/-0/1e-320; observed: "
